@@ -630,7 +630,7 @@ def static_violations(ctx: Ctx, facts):
                      f"bracket given seed: {r['bracket_seed']}",
                 sig=dict(clause="model_not_bracketed", model=r["name"])))
     for m, e, l, x in facts.get("links", []):
-        if x != "XId" and not (m == "calibration" and l == "Calibration.run_calibration -> ModelFittingDataTree"):
+        if x != "XId":
             ctx.violations.append(Violation(
                 clause="seed_not_forwarded", case=dict(mode=m, entry=e, link=l, transfer=x),
                 observed="pipeline_seed not passed on" if x == "XDrop" else "pipeline_seed passed on only if truthy: the legal seed 0 becomes None",
@@ -647,8 +647,13 @@ def run(ctx: Ctx):
     ctx.assumptions += [
         "seeds in 0 .. 2^32-1 (np.random.seed's domain); calibration seeds in 0 .. 100000",
         "single-threaded execution (dask synchronous scheduler); concurrent brackets are C07 / F16",
-        "model functions are driven on a 3x3 detector; nghxrg, cosmix, charge_deposition*, radiation_induced_dark_current, "
-        "dark_current (its output is almost noise-free on a tiny frame), dark_current_rule07, the SAPHIRA models and conversion_with_qe_map are covered by the regenerated bracket table only",
+        "all 17 model functions with a seed parameter are driven directly (3x3 / 6x6 / 16x16 detectors of the kind each "
+        "needs) from different prior states, at the boundary seeds and in several interpreter processes",
+        "multi-island calibrations use a deterministic pipeline and no pipeline seed: the island threads would otherwise "
+        "interleave their brackets on the one process-wide generator (C07 / F16); what is judged there is the optimiser "
+        "seed: island i must have the i-th derived seed whatever order the island threads start and finish in",
+        "a calibration's lazy champion data are not materialised (doing so fails in pyxel with KeyError 'pixel' for "
+        "with_inherited_coords=True; not a C04 matter): its result is the champions' decision/fitness/parameters",
     ]
     gen, facts = {}, None
     try:
@@ -740,20 +745,32 @@ META = dict(
         "body program and every prior state: set_random_seed as coded (its shape is re-read from the source on every run) "
         "restores the generator also when the body raises, makes draws/probed states/outcome independent of the prior "
         "state, nests, and is transparent for seed None; by structural induction every program whose draws all sit under "
-        "seeded brackets is reproducible and leak-free; hence exposure, sequential and dask observation are reproducible "
-        "with the seed each mode ACTUALLY forwards (call-chain table regenerated from the source), and all 17 model "
-        "functions with a seed parameter are bracketed (table regenerated). The calibration instance is REFUTED on the "
-        "unchanged tree (run_calibration drops pipeline_seed) with the full statement kept and the true restriction proved. "
-        "The tie to the running code is by correspondence (testing): equality patterns of hashed np.random states, draw "
-        "values and results over sessions of repeated runs from different prior states are compared inside Coq with the "
-        "model on the free generator and judged against the specification."),
+        "seeded brackets is reproducible and leak-free, and - if no part of it runs in an order the process chooses "
+        "(iteration over a set: PYTHONHASHSEED) - also from one interpreter process to another, with a refutation showing "
+        "the condition is needed; hence exposure, sequential and dask observation and calibration are reproducible with "
+        "the seed each mode ACTUALLY receives: the call-chain table (regenerated from the source) records for the "
+        "constructor, the YAML builder, the attribute setter and the override key what each link does to the seed "
+        "(identity / truthiness test that loses the legal seed 0 / drop), and the seed arriving at the bracket is proved to be "
+        "the seed given for every entry and every seed; no seed is tested for truthiness anywhere; all 17 model functions "
+        "with a seed parameter are bracketed, hand their own seed to the bracket and iterate over no hash-ordered "
+        "collection (tables regenerated); no np.random.seed outside the bracket; ArchipelagoDataTree._build (both "
+        "branches, read from the source) pushes the islands in submission order, so island i has the i-th derived seed "
+        "for every completion order of the island threads (proved; pushing in completion order is refuted). Still "
+        "refuted on the current tree: draws inside numba-compiled functions (EMCCD registers). The tie to the running "
+        "code is by correspondence (testing): equality patterns of hashed np.random states, draw values, results and "
+        "island seeds over sessions of repeated runs - from different prior states, in fresh interpreter processes with "
+        "different PYTHONHASHSEED values, with the seed given through every entry at 0, 1, 2^32-1, with the island threads "
+        "forced to finish in different orders - are compared inside Coq with the model on the free generator and judged "
+        "against the specification."),
     level_note=(
-        "Trusted: Coq kernel + vm_compute; translator/c04.py (helper calls followed by name: over-approximation); the "
-        "driver and probes. Not carried: MT19937 itself, pygmo's generator, numba's private generator (the EMCCD models "
-        "draw from it: known finding), thread interleavings (C07). Ten of the 17 seeded model functions are only covered "
-        "by the bracket table, not driven. pulse_processing's np.random.seed(42) is established statically (importing the "
-        "module triggers a very long superconductor computation, so it is not executed)."),
-    technique="Coq proof over an abstract-generator program semantics + regenerated bracket/forwarding tables + in-Coq "
-              "correspondence of state-equality patterns",
+        "Trusted: Coq kernel + vm_compute; translator/c04.py (helper calls followed by name: over-approximation; set "
+        "expressions recognised syntactically); the driver (child interpreters, wrappers around pygmo.island.__init__ and "
+        "ArchipelagoDataTree._build installed from outside) and probes. Not carried: MT19937 itself, pygmo's generator, "
+        "numba's private generator (the EMCCD models draw from it: known finding), thread interleavings of brackets on "
+        "the one process-wide generator (C07): the bracket theorems speak about ONE thread of control - between "
+        "get_state and set_state nothing else touches the generator. pulse_processing is never executed by the check "
+        "(one call takes minutes); it is covered by the regenerated table of np.random.seed sites."),
+    technique="Coq proof over an abstract-generator program semantics + regenerated bracket/forwarding/seed-entry/"
+              "island-order tables + in-Coq correspondence of state-equality patterns, incl. across interpreter processes",
     design_ref="DESIGN.md section 6, C04; section 7 F1, F16",
 )
